@@ -56,6 +56,15 @@ G3 == << GDoc("G3", "nullable-def-inner", ("T" :> SObj(Props1("f", SRef("Foo")),
                                            @@ ("FooInner" :> SObj(Props1("y", SInt), {}))),
          GDoc("G3", "nullable-def", ("T" :> SObj(Props1("f", SRef("Foo")), {}))
                                      @@ ("Foo" :> [types |-> <<"object", "null">>, properties |-> Props1("x", SInt)])),
+         (* a named definition that is oneOf[X, null] / anyOf[X, null] with X an inline schema needing a name *)
+         GDoc("G3", "nullable-def-oneof-enum", ("T" :> SObj(Props1("f", SRef("Foo")), {}))
+                                     @@ ("Foo" :> SNullable([type |-> "integer", enum |-> <<JInt(1), JInt(2)>>]))),
+         GDoc("G3", "nullable-def-oneof-obj", ("T" :> SObj(Props1("f", SRef("Foo")), {}))
+                                     @@ ("Foo" :> SNullable(SObj(Props1("x", SInt), {"x"})))),
+         GDoc("G3", "nullable-def-anyof-newtype", ("T" :> SObj(Props1("f", SRef("Foo")), {}))
+                                     @@ ("Foo" :> SAnyOf(<< [type |-> "string", minLength |-> 1], SNull >>))),
+         GDoc("G3", "nullable-def-oneof-ref", ("T" :> SObj(Props1("f", SRef("Foo")), {}))
+                                     @@ ("Foo" :> SNullable(SRef("Bar"))) @@ ("Bar" :> SObj(Props1("x", SInt), {"x"}))),
          GDoc("G3", "same-title-twice", ("T" :> SObj(Props2("x", Titled(SObj(Props1("p", SInt), {}), "Same"),
                                                             "y", Titled(SObj(Props1("q", SStr), {}), "Same")), {}))),
          GDoc("G3", "inline-enum-in-variant", ("T" :> SOneOf(<< ExtVar("A", SObj(Props1("in", SObj(Props1("z", SInt), {})), {})),
